@@ -76,6 +76,10 @@ SPECIAL = {
     "body_type_mod": ("#[::entrait::entrait(pub Tr)] pub mod m { pub fn f<U: Default + ::core::fmt::Display>(deps: %s, a: i64) -> String { format!(\"{}{}\", U::default(), a) } "
                       "pub fn g<U: Default + ::core::fmt::Display>(deps: %s) -> i64 { 2 } }" % (ANYD, ANYD),
                       ['let app = ::entrait::Impl::new(());', 'rt::out("d", m::f::<u8>(&app, 1)); rt::out("t", Tr::<u8>::f(&app, 1));'], "01"),
+    # the reference to a concrete dependency written `&'static`: still the receiver borrow, the trait is implemented for `Cfg`
+    "static_ref_concrete": ("pub struct Cfg(pub i64); pub static CFG: Cfg = Cfg(5);\n    #[::entrait::entrait(pub Tr)] pub fn f(deps: &'static Cfg, a: i64) -> i64 { deps.0 + a }",
+                            ['let app: &\'static ::entrait::Impl<Cfg> = ::std::boxed::Box::leak(::std::boxed::Box::new(::entrait::Impl::new(Cfg(5))));',
+                             'rt::out("d", f(&CFG, 1)); rt::out("t", format!("{}", <Cfg as Tr>::f(&CFG, 1) + <::entrait::Impl<Cfg> as Tr>::f(app, 1) - 6));'], "6"),
     "body_type_nodeps": ("#[::entrait::entrait(pub Tr, no_deps)] pub fn f<U: Default + ::core::fmt::Display, const N: usize>(a: i64) -> String { format!(\"{}{}{}\", U::default(), N, a) }",
                          ['let app = ::entrait::Impl::new(());', 'rt::out("d", f::<u8, 7>(1)); rt::out("t", Tr::<u8, 7>::f(&app, 1));'], "071"),
 }
